@@ -19,6 +19,7 @@ from dissect.hypervisor.disk.c_qcow2 import (
     QCow2ClusterType,
     QCow2SubclusterType,
     c_qcow2,
+    cto,
     ctz,
 )
 from dissect.hypervisor.exceptions import Error, InvalidHeaderError
@@ -462,10 +463,10 @@ def get_subcluster_range_type(
     sc_mask = (1 << sc_from) - 1
     if sc_type == QCow2SubclusterType.QCOW2_SUBCLUSTER_NORMAL:
         val = l2_bitmap | sc_mask  # QCOW_OFLAG_SUB_ALLOC_RANGE(0, sc_from)
-        return sc_type, ctz(val, 32) - sc_from
+        return sc_type, cto(val, 32) - sc_from
     if sc_type in ZERO_SUBCLUSTER_TYPES:
-        val = (l2_bitmap | sc_mask) >> 32  # QCOW_OFLAG_SUB_ZERO_RANGE(0, sc_from)
-        return sc_type, ctz(val, 32) - sc_from
+        val = (l2_bitmap | (sc_mask << 32)) >> 32  # QCOW_OFLAG_SUB_ZERO_RANGE(0, sc_from)
+        return sc_type, cto(val, 32) - sc_from
     if sc_type in UNALLOCATED_SUBCLUSTER_TYPES:
         # We need to mask it with a 64bit mask because Python flips the sign bit
         inv_mask = ~sc_mask & ((1 << 64) - 1)  # ~QCOW_OFLAG_SUB_ALLOC_RANGE(0, sc_from)
@@ -493,7 +494,7 @@ def count_contiguous_subclusters(
     for i in range(nb_clusters):
         first_sc = sc_index if i == 0 else 0
         l2_entry = l2_table.entry(l2_index + i)
-        l2_bitmap = l2_table.entry(l2_index + i)
+        l2_bitmap = l2_table.bitmap(l2_index + i)
 
         sc_type, sc_count = get_subcluster_range_type(qcow2, l2_entry, l2_bitmap, first_sc)
 
